@@ -137,6 +137,19 @@ CHECKS = {
                   "context (no axioms).",
         technique="Rocq proof by induction over reads/calls + model-vs-code correspondence (vm_compute) + oracle",
         ref="§C17"),
+    "C18": dict(
+        text="C18_scan: for every report built from KEY:v1,v2,.. fields and inert text (any number, order, values) the "
+             "hand scanner that models the regular expression returns exactly the fields, in order (print/scan "
+             "round-trip by induction over the field list). C18_readings: after any report, the reading of every "
+             "letter is the first value reported for it -- directly, via FS (Grbl) or via MPos/WPos/PRB fan-out -- "
+             "and the old reading otherwise (first-occurrence invariant over the elementary updates). Correspondence: "
+             "model vs the real PrintrunWriter receive callback on generated Marlin/Grbl/probe/noise sequences, "
+             "get_parameter compared for 12 letters after every line; oracle from the generator's own field structure.",
+        note=TB + "Modelled, not verified: Python's re engine (hand scanner; tied by correspondence incl. a malformed "
+                  "stream) and float() (decimal parser). Lower/mixed-case duplicate keys and '+' signs are outside the "
+                  "families. No axioms.",
+        technique="Rocq print/scan round-trip + first-occurrence invariant + correspondence (vm_compute) + oracle",
+        ref="§C18"),
 }
 
 PENDING_REASON = "check not built yet in this session (work in progress; see DESIGN.md §10 for the order)"
